@@ -139,6 +139,9 @@ H_DUMPS = {
     'C': ((2, 4), 1, ()),                  # overlaps A on tid 1, no records
     'E': ((), 0, ('dist',)),               # empty map
 }
+# truncated variants of dump A: parsing them raises (mid thread map / mid record); the tables afterwards are not judged, but
+# the NEXT parse through the same objects must behave as if nothing had happened
+H_BROKEN = {'A~map': ('A', 0x120 + 40), 'A~rec': ('A', -20), 'B~pad': ('B', 0x120 + 32 + 10)}
 
 
 def judge_lazy(seq, mode):
@@ -194,6 +197,20 @@ def judge_history(seq, mode):
             if tp.get(50) != 60 or pn.get(60) != 'learned':
                 bad.append(('harness:traces-did-not-learn', {'tp': repr(tp), 'pn': repr(pn)}))
     for step, name in enumerate(seq):
+        if name in H_BROKEN:
+            base, cut = H_BROKEN[name]
+            blob0 = build(*H_DUMPS[base])[0]
+            blob0 = blob0[:cut]
+            if mode == 'kd':
+                parse_kd(blob0, tp, pn)
+            elif mode == 'kd1':
+                try:
+                    list(p.parse(io.BytesIO(blob0)))
+                except Exception:
+                    pass
+            else:
+                parse_facade(blob0, f)
+            continue
         tm_idx, pad, kinds = H_DUMPS[name]
         blob, threads, recs = build(tm_idx, pad, kinds)
         exp = [ref_decode(r) for r in recs]
@@ -258,7 +275,7 @@ class C02(Check):
             'names) x padding length (12 values incl. 0, 1, 63..65, page alignment) x record sequence (<=2 (quick) / <=3 '
             '(thorough) over 10 record kinds incl. records beginning with 1,2,7,8 zero bytes and, in '
             'non-first position, an all-zero record and records beginning with the version-2 / version-3 magic) x both entry points; plus all sequences of <=3 parses over 4 dumps through the same table '
-            'objects in 4 reuse modes, and with all generators created first and consumed afterwards (same parser via parse(), via parse_v2() directly, same facade); plus two parses ALIVE AT ONCE (3x3 dump pairs), their generators advanced in every interleaving; plus dumps of 63..4097 records. Oracle: events == independent decode of each record; tables == file map (last wins), '
+            'objects in 4 reuse modes (also after a parse that RAISED on a truncated dump), and with all generators created first and consumed afterwards (same parser via parse(), via parse_v2() directly, same facade); plus two parses ALIVE AT ONCE (3x3 dump pairs), their generators advanced in every interleaving; plus dumps of 63..4097 records. Oracle: events == independent decode of each record; tables == file map (last wins), '
             'identity preserved, nothing left over. non-trivial = dump has >=1 record and >=1 map entry (or history length >=2). '
             'states = distinct table contents after a parse; transitions = parse calls.')
     assumptions = ('a first record of 64 zero bytes is indistinguishable from padding and is not generated first',
@@ -337,7 +354,8 @@ class C02(Check):
             acc.sample({'concurrent_parses': ['P', 'Q'], 'schedule': [0, 1, 0, 1, 1, 0]})
         else:
             for mode in ('kd', 'kd1', 'facade', 'facade+traces'):
-                for seq in seqs(list(H_DUMPS), 3, 1):
+                for seq in list(seqs(list(H_DUMPS), 3, 1)) + [(b, d) for b in H_BROKEN for d in H_DUMPS] + \
+                        [(d0, b, d) for d0 in ('A', 'B') for b in H_BROKEN for d in H_DUMPS]:
                     bad, st = judge_history(seq, mode)
                     acc.case(nontrivial=len(seq) >= 2, transitions=len(seq), state=h64(st), outcome=h64((seq, st)))
                     for sig, detail in bad:
